@@ -125,6 +125,8 @@ theorem k_exec {n b x} (v p i s) (hx : R n b x) : R (n + 10) b (exec v p i s x).
   all_goals (try simp only [])
   all_goals (graded_chain h hx)
 
+/-- an ED-page instruction after its second opcode fetch: at most 11 timed operations (repeating
+`CPIR`/`CPDR`: one read, 5 + 5 single delay T-states) -/
 theorem k_execED {n b x} (i s) (hx : R n b x) : R (n + 11) b (execED i s x).2 := by
   cases i <;> simp only [execED]
   all_goals (try (repeat' split))
@@ -206,7 +208,8 @@ theorem k_execOne {n b x} (v s) (hx : R n b x) : R (n + 13) b (execOne v s x).2 
       | exact h.up (h.k_exec _ _ _ _ (h.k_fetchByte 4 _ h.four_le hx)) (by omega)
 
 /-- **One `emulate` issues at most 20 timed bus operations** (interrupt entry ≤ 7, prefix and opcode
-fetches ≤ 2, the instruction ≤ 10), whatever the CPU state and the bus. -/
+fetches ≤ 2, the rest of the instruction ≤ 11:
+a repeating `CPIR`/`CPDR` reads once and idles for 5 + 5 single T-states), whatever the CPU state and the bus. -/
 theorem emulate (v : Variant) (s : Cpu) (b : β) : R 20 b (emulate v (s, b)).2 := by
   simp only [Z80.emulate]
   exact h.up (h.k_pcCallback _ (h.k_execOne _ _ (h.k_checkInterrupt _ (h.refl b)))) (by omega)
